@@ -38,7 +38,7 @@ ASSUMPTIONS = [
 FLOORS = {
     'quick': {'layouts_checked': 10000, 'runs_rewritten': 4000, 'ref_compared': 9000, 'layer:directive': 1300, 'layer:parse': 1300,
               'layer:conflict': 400, 'layer:compile': 150, 'nameguard_decisions': 1200, 'ignorecase_token_matches': 150,
-              'ws:default': 800, 'ws:regex': 400, 'ws:empty': 200, 'comment_runs': 1300, 'added_leading': 6000, 'added_trailing': 6000, 'reused_parser_checked': 3000},
+              'ws:default': 800, 'ws:regex': 400, 'ws:empty': 200, 'comment_runs': 1300, 'added_leading': 6000, 'added_trailing': 6000, 'reused_parser_checked': 3000, 'skipto_family': 200, 'skipto_family_with_comments': 80},
     'thorough': {'layouts_checked': 250000, 'runs_rewritten': 90000, 'ref_compared': 200000},
 }
 N = {'quick': 3000, 'thorough': 72000}
@@ -95,7 +95,7 @@ def directive_text_values(d):
 
 
 def gen_grammar(rng):
-    F = dict(G.FEATURES, dot=False, skipto=False, cut=rng.random() < 0.2, fail=False, skipgroup=rng.random() < 0.3)
+    F = dict(G.FEATURES, dot=False, skipto=rng.random() < 0.3, cut=rng.random() < 0.2, fail=False, skipgroup=rng.random() < 0.3)
     g = G.gen_grammar(rng, F, max_rules=4, pats=['a', 'b+', '[ab]', 'c', r'\d+', '[a-c]+'])
     return g
 
@@ -115,9 +115,12 @@ def ws_pieces(eff):
     if eff.get('comments'):
         pieces.append('(* c *)')
         pieces.append('(**)')
+        # the text of a comment is never input: tokens, separators and digits of the grammars inside it
+        pieces.append('(* a b *)')
+        pieces.append('(*a,b c 1*)')
     eol_mid = []
     if eff.get('eol_comments') and nl_ok:
-        eol_mid = ['#c\n', '# a b\n']
+        eol_mid = ['#c\n', '# a b\n', '#b,a 1 c\n']
     return pieces, eol_mid, bool(eff.get('eol_comments'))
 
 
@@ -301,7 +304,8 @@ def gen_texts(rng, g, eff, n):
         elif k < 0.35:
             # glue a name character / namechar / other after a token
             i = rng.randrange(len(t) + 1)
-            t = t[:i] + rng.choice(['x', '1', '-', '_', '$', '.']) + t[i:]
+            # (documented nameguard: a token that is a name is not matched when an ALPHANUMERIC character follows - any script)
+            t = t[:i] + rng.choice(['x', '1', '-', '_', '$', '.', 'é', 'λ', 'ж', '٣', 'ß', 'ｘ', '²']) + t[i:]
         elif k < 0.45 and eff.get('comments'):
             i = rng.randrange(len(t) + 1)
             t = t[:i] + ' (* k *) ' + t[i:]
@@ -312,12 +316,46 @@ def gen_texts(rng, g, eff, n):
     return out
 
 
+def skipto_family(rng):
+    """pre ->target post: the region skipped holds words, blanks and (after re-layout) comments whose text contains the
+    target: a comment is never input, whatever the expression that is looking for its match"""
+    T = L.Tok
+    target = rng.choice([T('a'), T(','), L.Pat(r'\d+'), T('b'), L.Group(L.Choice((T('a'), T('b'))))])
+    pre = rng.choice([T('c'), L.Opt(T('c')), L.Void()])
+    post = rng.choice([L.Clo(T('c')), L.Seq((T('c'), L.EOF())), L.EOF(), L.Opt(L.Pat('[a-c]+'))])
+    return L.Grammar([L.Rule('start', G.normalise(L.Seq((pre, L.SkipTo(target), post))))]), target
+
+
+def skipto_texts(rng, eff):
+    out = []
+    words = ['c', 'cc', 'x', '-', 'c c', 'cx']
+    for _ in range(6):
+        junk = ' '.join(rng.choice(words) for _k in range(rng.randrange(0, 4)))
+        hit = rng.choice(['a', ',', '7', 'b', '12'])
+        tail = rng.choice(['', ' c', ' c c', ' cc'])
+        t = rng.choice(['', 'c ']) + junk + ' ' + hit + tail
+        if eff.get('comments') and rng.random() < 0.6:
+            i = t.find(' ') if ' ' in t else 0
+            t = t[:i] + rng.choice([' (* a *) ', ' (* , 7 b *) ', '(*a*)']) + t[i:]
+        if eff.get('eol_comments') and rng.random() < 0.4:
+            i = t.find(' ') if ' ' in t else 0
+            t = t[:i] + ' # a , 7 b\n' + t[i:]
+        out.append(t)
+    return out
+
+
 def run_shard(desc, acc):
     for i in range(desc['n']):
         rng = random.Random(h64('C09', desc['seed'], desc['shard'], i))
         g = gen_grammar(rng)
         directives, parse, comp, eff = gen_config(rng)
         texts = gen_texts(rng, g, eff, 6)
+        if rng.random() < 0.12:
+            g, _target = skipto_family(rng)
+            texts = skipto_texts(rng, eff)
+            acc.count('skipto_family')
+            if eff.get('comments') or eff.get('eol_comments'):
+                acc.count('skipto_family_with_comments')
         check_case(acc, rng, g, directives, parse, comp, eff, texts, {'shard': desc['shard'], 'i': i})
         if i == 0:
             acc.sample({'grammar': L.grammar_text(g), 'directives': directives, 'parse_time': parse, 'compile_time': comp,
